@@ -100,10 +100,18 @@ def is_wrapped(s) -> bool:
         return False
     depth = 0
     n = len(pieces)
+    quote = None  # brackets inside "..", '..' or `..` literals do not count
     for i, p in enumerate(pieces):
         if not isinstance(p, str):
             continue
         for j, ch in enumerate(p):
+            if quote:
+                if ch == quote:
+                    quote = None
+                continue
+            if ch in "\"'`":
+                quote = ch
+                continue
             if ch == "(":
                 depth += 1
             elif ch == ")":
@@ -138,6 +146,10 @@ def canon(v):
 
 def same(a, b) -> bool:
     return canon(a) == canon(b)
+
+
+def pai_desc(v):
+    return v.describe() if isinstance(v, SStr) else v
 
 
 def run(ctx: Ctx) -> None:
@@ -220,8 +232,14 @@ def run(ctx: Ctx) -> None:
     loc = lambda name: repo.loc("transformer", repo.func(f"transformer.MapfileTransformer.{name}"))
     OPER = frozenset()
 
+    OPX = frozenset("()[]{}\"'` \t\nABCDEFGHIJKLMNOPQRSTUVWXYZ")
+
     def operand(name):
-        return models.token("OPERAND", SStr.atom(name, free=True))
+        # opaque operand text: any bracket-free, quote-free, space-free lower-case text
+        return models.token("OPERAND", SStr.atom(name, free=True, excludes=OPX))
+
+    def OA(name):
+        return Atom(name, free=True, excludes=OPX)
 
     def optoken(term):
         return X.fresh_token(term)
@@ -229,7 +247,7 @@ def run(ctx: Ctx) -> None:
     def run_cb(label, mk):
         outs = X.eval_callback(label, mk)
         if len(outs) != 1:
-            raise AnalysisError(f"builder {label} forks: {[o.assumptions for o in outs]}")
+            ctx.finding("M3", f"builder {label} depends on the text of its operands", loc(label), f"{label} takes {len(outs)} different paths for opaque operands: {[o.assumptions for o in outs][:3]}")
         o = outs[0]
         if o.kind != "return":
             return None, o
@@ -243,7 +261,7 @@ def run(ctx: Ctx) -> None:
         if not repo.has_func(f"transformer.MapfileTransformer.{lab}"):
             raise AnalysisError(f"anchor vanished: builder {lab}")
         v, o = run_cb(lab, lambda: [operand("X"), operand("Y")])
-        core = SStr([Atom("X", free=True), opx, Atom("Y", free=True)])
+        core = SStr([OA("X"), opx, OA("Y")])
         want = SStr(["( ", core, " )"]) if lab in wrapped_builders else core
         ctx.check(same(v, want), "M3", f"builder {lab}", loc(lab), f"{want.describe()}", f"{lab}(X, Y) builds {v!r}, expected {want.describe()!r}: operands reordered, altered, duplicated or wrong operator spelling")
     # comparison with every operator terminal
@@ -259,38 +277,85 @@ def run(ctx: Ctx) -> None:
 
         v, o = run_cb("comparison", mk)
         optext = holder["op"].attrs["value"]
-        want = SStr(["( ", Atom("X", free=True), " ", optext, " ", Atom("Y", free=True), " )"])
+        want = SStr(["( ", OA("X"), " ", optext, " ", OA("Y"), " )"])
         ctx.check(same(v, want), "M3", f"comparison with {op_spelling(G, term)}", loc("comparison"), want.describe(), f"comparison builds {v!r} for operator {op_spelling(G, term)}: expected {want.describe()!r} (operator spelling unchanged)")
     v, o = run_cb("not_expression", lambda: [operand("X")])
-    ctx.check(v == SStr(["NOT ", Atom("X", free=True)]), "M3", "builder not_expression", loc("not_expression"), "NOT X", f"not_expression(X) builds {v!r}")
+    ctx.check(v == SStr(["NOT ", OA("X")]), "M3", "builder not_expression", loc("not_expression"), "NOT X", f"not_expression(X) builds {v!r}")
     v, o = run_cb("neg", lambda: [operand("X")])
-    ctx.check(v == SStr(["-", Atom("X", free=True)]), "M3", "builder neg", loc("neg"), "-X", f"neg(X) builds {v!r}")
+    ctx.check(v == SStr(["-", OA("X")]), "M3", "builder neg", loc("neg"), "-X", f"neg(X) builds {v!r}")
     # the builders return the token they were given first (position kept) - shared with C08
+
+    # structured operands: what a builder receives in practice are results of other builders; a builder
+    # that inspects its operands' text must still keep each operand whole, in order, once
+    ctx.rule("M3b", "logical builders keep structured operands (bindings, bracketed comparisons, bracketed OR / AND groups, NOT forms, quoted literals containing brackets) whole and in order: result is ( L OP R )", 40)
+    IDENT = frozenset("()[]{}\"'` \t\n=<>!~%+-*/^,ABCDEFGHIJKLMNOPQRSTUVWXYZ")
+
+    def sbind(nm):
+        w = models.token("UNQUOTED_STRING", SStr.atom(nm, first=models.LOWER, last=models.LOWER, excludes=IDENT, free=True))
+        return X.eval_callback("attr_bind", lambda: [w])[0].value
+
+    def scmp(a_, b_):
+        return X.eval_callback("comparison", lambda: [sbind(a_), X.eval_callback("compare_op", lambda: [optoken("EQUAL")])[0].value, sbind(b_)])[0].value
+
+    def wrapped(res):
+        return X.eval_callback("expression", lambda: [res])[0].value
+
+    def lit(text):
+        return models.token("DOUBLE_QUOTED_STRING", text)
+
+    operand_makers = {
+        "binding": lambda n_: sbind(n_),
+        "comparison": lambda n_: scmp(n_ + "x", n_ + "y"),
+        "bracketed OR group": lambda n_: wrapped(X.eval_callback("or_test", lambda: [scmp(n_ + "p", n_ + "q"), scmp(n_ + "r", n_ + "s")])[0].value),
+        "bracketed AND group": lambda n_: wrapped(X.eval_callback("and_test", lambda: [scmp(n_ + "p", n_ + "q"), scmp(n_ + "r", n_ + "s")])[0].value),
+        "bracketed OR group containing an AND": lambda n_: wrapped(X.eval_callback("or_test", lambda: [X.eval_callback("and_test", lambda: [scmp(n_ + "p", n_ + "q"), scmp(n_ + "r", n_ + "s")])[0].value, scmp(n_ + "t", n_ + "u")])[0].value),
+        "NOT form": lambda n_: X.eval_callback("not_expression", lambda: [scmp(n_ + "x", n_ + "y")])[0].value,
+        "comparison with a literal containing )": lambda n_: X.eval_callback("comparison", lambda: [sbind(n_), X.eval_callback("compare_op", lambda: [optoken("EQUAL")])[0].value, lit("`a)`")])[0].value,
+    }
+    for lab, opx in (("and_test", " AND "), ("or_test", " OR ")):
+        for ln_, lm in operand_makers.items():
+            for rn_, rm in operand_makers.items():
+                if ctx.tier == "quick" and ln_ != rn_ and "group" not in ln_ and "group" not in rn_:
+                    continue
+                holder = {}
+
+                def mk(lm=lm, rm=rm):
+                    l_, r_ = lm("l"), rm("r")
+                    holder["l"], holder["r"] = l_.attrs["value"], r_.attrs["value"]
+                    return [l_, r_]
+
+                outs = X.eval_callback(lab, mk)
+                if len(outs) != 1 or outs[0].kind != "return":
+                    ctx.finding("M3b", f"{lab}: {ln_} {opx.strip()} {rn_}", loc(lab), f"builder forks or fails on structured operands: {[(o.kind, o.exc, o.assumptions) for o in outs][:2]}")
+                    continue
+                v = outs[0].value.attrs["value"]
+                want = SStr(["( ", holder["l"], opx, holder["r"], " )"])
+                ctx.check(same(v, want), "M3b", f"{lab}: {ln_} {opx.strip()} {rn_}", loc(lab), "( L OP R )", f"{lab}(L, R) with L a {ln_} and R a {rn_} builds {pai_desc(v)!r} instead of {want.describe()!r}: operands are regrouped or altered")
 
     ctx.rule("M4", "function calls, parameter lists, bindings, list expressions, regexes and runtime variables keep their elements verbatim with their delimiters", 7)
     v, o = run_cb("func_params", lambda: [operand("X"), operand("Y"), operand("Z")])
-    ctx.check(v == SStr([Atom("X", free=True), ",", Atom("Y", free=True), ",", Atom("Z", free=True)]), "M4", "func_params", loc("func_params"), "X,Y,Z", f"func_params builds {v!r}")
-    v, o = run_cb("func_call", lambda: [operand("F"), SStr.atom("P", free=True)])
-    ctx.check(v == SStr(["(", Atom("F", free=True), "(", Atom("P", free=True), "))"]), "M4", "func_call", loc("func_call"), "(F(P))", f"func_call builds {v!r}")
+    ctx.check(v == SStr([OA("X"), ",", OA("Y"), ",", OA("Z")]), "M4", "func_params", loc("func_params"), "X,Y,Z", f"func_params builds {v!r}")
+    v, o = run_cb("func_call", lambda: [operand("F"), SStr.atom("P", free=True, excludes=OPX)])
+    ctx.check(v == SStr(["(", OA("F"), "(", OA("P"), "))"]), "M4", "func_call", loc("func_call"), "(F(P))", f"func_call builds {v!r}")
     v, o = run_cb("attr_bind", lambda: [operand("W")])
-    ctx.check(v == SStr(["[", Atom("W", free=True), "]"]), "M4", "attr_bind", loc("attr_bind"), "[W]", f"attr_bind builds {v!r}")
+    ctx.check(v == SStr(["[", OA("W"), "]"]), "M4", "attr_bind", loc("attr_bind"), "[W]", f"attr_bind builds {v!r}")
     for lab in ("regexp", "runtime_var"):
         v, o = run_cb(lab, lambda: [operand("R")])
-        ctx.check(v == SStr([Atom("R", free=True)]), "M4", lab, loc(lab), "verbatim", f"{lab} builds {v!r}")
+        ctx.check(v == SStr([OA("R")]), "M4", lab, loc(lab), "verbatim", f"{lab} builds {v!r}")
     # list: elements are raw tokens (strings keep quotes, numbers their text)
     v, o = run_cb("list", lambda: [operand("A"), operand("B")])
-    ctx.check(v == SStr(["{", Atom("A", free=True), ",", Atom("B", free=True), "}"]), "M4", "list", loc("list"), "{A,B}", f"list builds {v!r}")
+    ctx.check(v == SStr(["{", OA("A"), ",", OA("B"), "}"]), "M4", "list", loc("list"), "{A,B}", f"list builds {v!r}")
     # a list element whose callback rewrote .value (binding, signed number ...) : str(token) is the source text
     holder = {}
 
     def mk_list_bind():
-        w = models.token("UNQUOTED_STRING", SStr.atom("W", free=True))
+        w = models.token("UNQUOTED_STRING", SStr.atom("W", free=True, excludes=OPX))
         b = X.eval_callback("attr_bind", lambda: [w])[0].value
         holder["b"] = b
         return [b, operand("B")]
 
     v, o = run_cb("list", mk_list_bind)
-    want = SStr(["{[", Atom("W", free=True), "],", Atom("B", free=True), "}"])
+    want = SStr(["{[", OA("W"), "],", OA("B"), "}"])
     ctx.check(v == want, "M4", "list with a binding element", loc("list"), want.describe(), f"a list expression {{[W],B}} is rebuilt as {v!r}: the element loses its delimiters (the callback uses the token's source text, not its rewritten value)")
 
     # ---- form lattice ----------------------------------------------------------------------------
@@ -313,6 +378,9 @@ def run(ctx: Ctx) -> None:
         "OPEN (..) - (..)  of two parenthesised operands": lambda: X.eval_callback("sub", lambda: [expr_of(lambda: bind("a")), expr_of(lambda: bind("b"))])[0].value,
         "OPEN (..) / (..)": lambda: X.eval_callback("div", lambda: [expr_of(lambda: bind("a")), expr_of(lambda: bind("b"))])[0].value,
         "WRAPPED nested expression (([a]))": lambda: expr_of(lambda: bind("a")),
+        "comparison whose literal contains a bracket, double quotes": lambda: X.eval_callback("comparison", lambda: [bind("a"), X.eval_callback("compare_op", lambda: [optoken("EQUAL")])[0].value, models.token("DOUBLE_QUOTED_STRING", '"a)"')])[0].value,
+        "comparison whose literal contains a bracket, single quotes": lambda: X.eval_callback("comparison", lambda: [bind("a"), X.eval_callback("compare_op", lambda: [optoken("EQUAL")])[0].value, models.token("SINGLE_QUOTED_STRING", "'(a'")])[0].value,
+        "comparison whose literal contains a bracket, back quotes": lambda: X.eval_callback("comparison", lambda: [bind("a"), X.eval_callback("compare_op", lambda: [optoken("EQUAL")])[0].value, models.token("ESCAPED_STRING", "`a)`")])[0].value,
         "function call (f(p))": lambda: X.eval_callback("func_call", lambda: [models.token("UNQUOTED_STRING", SStr.atom("f", free=True, excludes=frozenset("()\"'`"))), SStr.atom("p", free=True, excludes=frozenset("()\"'`"))])[0].value,
     }
     for name, mk in forms.items():
